@@ -591,6 +591,53 @@ def check_c06(tier, seed):
 
     variants = VARIANTS_C06 if tier == "thorough" else VARIANTS_C06[:5]
     jobs, res, dropped = explore(binary, bdir, tier, seed, progs, variants, nseeds, st, rep, "C06", on_result)
+    # unsafe-max-depth at *critical* depths: for every program the reference verdict is computed for depths 2..11;
+    # a depth at which a flow first appears is where an order-dependent depth bookkeeping would cut it in some orders.
+    crit_runs = 0
+    drng = Rng(seed ^ 0xDE97)
+    dprogs = progs[: (16 if tier == "quick" else 200)]
+    for k in range(8 if tier == "quick" else 60):
+        dprogs.append({"kind": "src", "name": "diamond-%d-%d" % (seed, k), "text": tgen.diamond(Rng(seed * 31 + k))})
+    djobs = []
+    for prog in dprogs:
+        for d in range(2, 12):
+            j = sysa.make_job(len(djobs), "taint", prog, {"log-level": 1, "unsafe-max-depth": d}, sysa.base_params())
+            j["_prog"], j["_variant"], j["_depth"], j["_progobj"] = prog["name"], "taint-maxdepth-%d" % d, d, prog
+            djobs.append(j)
+    dres = run_jobs(binary, djobs, timeout=REF_TIMEOUT, progress=5000)
+    byprog = collections.defaultdict(dict)
+    for j, r in zip(djobs, dres):
+        if r is None or r.get("timeout") or sysa.classify_hard(r) or r.get("died") or r.get("panic") \
+                or (r.get("sim") or {}).get("aborted"):
+            continue
+        st.add(j, r)
+        byprog[j["_prog"]][j["_depth"]] = (j, r)
+    cjobs, cmeta = [], []
+    for prog in dprogs:
+        ds = byprog.get(prog["name"], {})
+        crit = [d for d in sorted(ds) if d - 1 in ds and set(ds[d][1].get("flows") or []) != set(ds[d - 1][1].get("flows") or [])]
+        # the depths just below a transition are explored too: under another order the flow may already fit there
+        around = sorted(set(x for d in crit[:2] for x in (d - 2, d - 1, d) if x in ds))
+        for d in around[:5]:
+            for _ in range(nseeds * 2):
+                p = sysa.swarm_params(drng)
+                p["map_perm_pct"] = 100
+                j = sysa.make_job(len(cjobs), "taint", prog, {"log-level": 1, "unsafe-max-depth": d}, p)
+                j["_prog"], j["_variant"], j["_timeout"] = prog["name"], "taint-maxdepth-%d" % d, 120
+                cjobs.append(j)
+                cmeta.append(ds[d][1])
+    cres = run_jobs(binary, cjobs, timeout=240, progress=5000)
+    for j, r, ref in zip(cjobs, cres, cmeta):
+        hard = sysa.classify_hard(r)
+        if hard and not (r or {}).get("died"):
+            st.hard[hard.split(":")[0]] += 1
+            rep.inconclusive.append("run %d (%s/%s): %s" % (j["id"], j["_prog"], j["_variant"], hard))
+            continue
+        st.add(j, r)
+        crit_runs += 1
+        on_result(j, r, ref)
+    for j in djobs:
+        j.pop("_progobj", None)
     corpus_runs = 0
     ptr_runs = 0
     if tier == "thorough":
@@ -610,6 +657,7 @@ def check_c06(tier, seed):
     nonempty = sum(1 for j, r in zip(jobs, res) if j.get("_ref") and r and (r.get("flows") or r.get("traces")))
     cov = st.coverage(RULE_A, {"programs": nprog, "variants": [v[0] for v in variants], "seeds_per_variant": nseeds,
                                "reference_runs_with_nonempty_verdict": nonempty, "corpus_runs": corpus_runs, "runs_with_internal_pointer_map_orders_permuted": ptr_runs,
+                               "runs_at_critical_unsafe_max_depth": crit_runs,
                                "dropped": dict(dropped), "observations": dict(observations),
                                "runs_per_hour": int(st.runs / max(1e-9, time.time() - t0) * 3600), "seeds": [seed]})
     write_evidence("C06", tier, seed, cov, time.time() - t0, len(rep.violations),
@@ -670,7 +718,7 @@ def check_c05(tier, seed):
     st = Stats()
     nprog, nseeds = (24, 2) if tier == "quick" else (300, 4)
     rng = Rng(seed ^ 0xC05)
-    progs = [sysa.gen_program(seed + 5, i) for i in range(nprog)]
+    progs = [sysa.gen_program(seed + 5, i) if i % 2 == 0 else sysa.gen_program_multi(seed + 5, i) for i in range(nprog)]
     sim_decided = [  # options that add goroutines, file handles or logger lock traffic
         {"report-summaries": True}, {"report-coverage": True}, {"report-paths": True}, {"report-no-callee-sites": True},
         {"report-summaries": True, "report-coverage": True, "report-paths": True, "report-no-callee-sites": True},
@@ -678,6 +726,7 @@ def check_c05(tier, seed):
     ]
     ride_along = [
         {"summarize-on-demand": True}, {"pkg-filter": "command-line-arguments"}, {"pkg-filter": "^nomatch$"},
+        {"pkg-filter": "m/lib"}, {"pkg-filter": "^m/"},
         {"pkg-filter": "main", "summarize-on-demand": True}, {"summarize-on-demand": True, "report-summaries": True},
     ]
     alarms = [{"max-alarms": 1}, {"max-alarms": 2}, {"max-alarms": 1, "summarize-on-demand": True}]
